@@ -45,10 +45,14 @@ type C16Plan struct {
 	// an explicit transaction, a statement that is only prepared ("pkeep") and
 	// executed later by the program ("preuse"). Dedicated: the handle is one
 	// *sql.Conn for prelude and program instead of the pool.
-	Prelude   []C16Op `json:"prelude,omitempty"`
-	Dedicated bool    `json:"dedicated,omitempty"`
-	Tape      []int   `json:"tape"`
-	Version   string  `json:"version,omitempty"`
+	// Fault (program outside a global transaction, no prelude): the same database
+	// error at the same statement on both servers - what the application sees of
+	// it must be the same through the proxy
+	Fault     *DBFault `json:"fault,omitempty"`
+	Prelude   []C16Op  `json:"prelude,omitempty"`
+	Dedicated bool     `json:"dedicated,omitempty"`
+	Tape      []int    `json:"tape"`
+	Version   string   `json:"version,omitempty"`
 }
 
 type c16Res struct {
@@ -206,7 +210,10 @@ func genC16Plan(seed uint64, tier string) *C16Plan {
 		}
 		p.Ops = append([]C16Op{{Op: "exec", SQL: stmt, Kind: kind + "-block"}}, p.Ops...)
 	}
-	if p.Driver == "at" && !p.Global && g.Prob(0.3) {
+	if !p.Global && g.Prob(0.15) {
+		cl := simkit.Pick(g, []string{"commit", "commit", "update", "insert", "delete", "begin"})
+		p.Fault = &DBFault{Class: cl, Nth: g.Range(1, 2), Kind: "error", Num: simkit.Pick(g, []int{1213, 1205, 3101})}
+	} else if p.Driver == "at" && !p.Global && g.Prob(0.3) {
 		p.Dedicated = g.Bool()
 		if g.Bool() || !p.Dedicated {
 			// a statement prepared while the global transaction is open, executed
@@ -551,7 +558,16 @@ func runC16(t *testing.T, seed uint64, planJSON []byte, tier string) (res *Resul
 		srvB.LockWaitTimeout = 5 * time.Second
 		c16DriverSeq++
 		nameB := fmt.Sprintf("simdb-c16-bare-%d", c16DriverSeq)
-		sql.Register(nameB, &simdb.Driver{Srv: srvB, NoHook: true})
+		if plan.Fault != nil && !plan.Global && len(plan.Prelude) == 0 {
+			// the reference server gets a hook of its own that only injects the fault
+			hookB := newDBHook(sim)
+			hookB.park = false
+			srvB.Hook = hookB
+			sql.Register(nameB, &simdb.Driver{Srv: srvB})
+			hookB.Reset([]DBFault{*plan.Fault})
+		} else {
+			sql.Register(nameB, &simdb.Driver{Srv: srvB, NoHook: true})
+		}
 		for i := range plan.Tables {
 			for _, s := range []*simdb.Server{w.Srv, srvB} {
 				if err := plan.Tables[i].install(s, atSchema); err != nil {
@@ -630,6 +646,13 @@ func runC16(t *testing.T, seed uint64, planJSON []byte, tier string) (res *Resul
 			}
 			settleP2()
 			w.Sim.Probe("c16-program-after-global-transaction-on-same-handle")
+		}
+		if plan.Fault != nil && !plan.Global && len(plan.Prelude) == 0 {
+			w.Hook.Reset([]DBFault{*plan.Fault})
+			if hb, ok := srvB.Hook.(*dbHook); ok {
+				hb.Reset([]DBFault{*plan.Fault})
+			}
+			w.Sim.Probe("c16-same-database-error-on-both-servers")
 		}
 		jA0, jB0 := w.Srv.JournalLen(), srvB.JournalLen()
 		tc0 := len(w.TC.Log)
